@@ -83,5 +83,7 @@ def run(ctx, rep):
                 if INTERIOR.search(fl["ty"]):
                     bad.append("%s.%s" % (path, fl["name"]))
     rep.check(not bad, "L4", "C13|L4|interior", None, "interior mutability in %r" % (bad,))
+    import pipeline
+    pipeline.rule(ctx, rep, "C13", ['resolve_types', 'check_imports', 'check_declared_parcelables', 'check_containers', 'set_up_oneway_interface', 'check_methods'])
     rep.assumptions += ["TB-1 rustc MIR", "TB-3 HashMap get / contains_key depend only on the key and the entry stored under it"]
     rep.not_decided.append("which file wins when two define the same key (C11 known finding)")
